@@ -256,12 +256,15 @@ def gen_cases(seed, tier, unsafe_share=True):
     cases = []
     n_main = 1400 if tier == 'quick' else 12000
     ranges = [(60, 300), (20, 40), (5, 9), (1, 1), (0, 0), (5, 3), (3, 5), (100, 101), (200, 400)]
-    big = [(1000, 1001), (3000, 3001)] if tier == 'quick' else [(1000, 1001), (6000, 6001), (30000, 30001)]
+    # the trace of a long run grows quadratically (every step lists the simulated stack and memo): a 30 000-opcode seeded run
+    # writes gigabytes, so the thorough tier stops at 6 000 (about 1 in 100 cases); the deep-stack witnesses of the corpus
+    # (30 000 integers on exhausted bytes: no memo) and suite s9 cover the very long ones
+    big = [(1000, 1001), (3000, 3001)] if tier == 'quick' else [(1000, 1001), (3000, 3001), (6000, 6001)]
     k = 0
     for i in range(n_main):
         v = i % 6
         mn, mx = rng.choice(ranges)
-        if rng.below(50) == 0:
+        if rng.below(50 if tier == 'quick' else 100) == 0:
             mn, mx = rng.choice(big)
         r = rng.below(10)
         if r < 3:
@@ -1336,6 +1339,30 @@ def run_s9(seed, tier, log):
             props.append({'id': 'deepcase-' + did, 'prop': 'C09',
                           'detail': 'deeply nested object (%s) on a 2 MiB thread: %s' % (plines[k_][:70] if k_ < len(plines) else did,
                                     ('process died (rc %d) %s' % (p.returncode, (p.stderr or '').strip()[-120:])) if 'DEEP-OK' not in p.stdout else p.stdout.strip()[-100:])})
+    # wide instead of deep: tens of thousands of items on the simulated stack when the collapse tail starts (exhausted fuzzer
+    # bytes make every step push an integer), run without tracing; every output is judged by all single-output oracles (the
+    # collapse must leave exactly one object, in the protocol's own opcodes) - the regression cases of findings B and E
+    wide = [spec('wide%d' % i, v, n_, n_, RATES['0.1'], 0, 0, 0, [], 'bytes:-') for i, (v, n_) in
+            enumerate([(0, 12000), (1, 10500), (2, 12000), (3, 10001), (5, 14000)] + ([] if tier == 'quick' else [(2, 30000), (4, 40000)]))]
+    # (the extracted reference machine is quadratic in the stack depth - list length per step -, hence these sizes: just
+    # beyond the 10 000 of finding B; one driver process per case)
+    wout = library_bytes(wide)
+    wprocs = []
+    for i, blk in enumerate(b_ for b_ in wout.split('END\n') if b_.strip()):
+        wt = os.path.join(BUILD, 'wide_results%d.txt' % i)
+        open(wt, 'w').write(blk + 'END\n')
+        wprocs.append((wt, subprocess.Popen([DRIVER, 'oracles', wt], stdout=subprocess.PIPE, stderr=subprocess.STDOUT, text=True, env=ENV)))
+    wprops = []
+    for wt, q_ in wprocs:
+        wprops += parse_verdicts(q_.communicate(timeout=3000)[0])['props']
+        os.remove(wt)
+    for c_ in wide:
+        wid = re.search(r'\bid=(\S+)', c_).group(1)
+        bad = [p_ for p_ in wprops if p_['id'] == wid]
+        runs.append(dict(case=wid, path=c_[:80], stack_kb=0, ok=not bad and ('CASE ' + c_) in wout, rc=0))
+        if bad:
+            dspecs[wid] = c_
+    props += wprops
     # the same shapes applied to the implementation DIRECTLY (hooks emit_one / valid_opcodes / finish): nobody's candidate list
     # decides the next opcode, so a change of the guards cannot derail the path; the guards are evaluated on the way
     nd = 100000 if tier == 'quick' else 1000000
